@@ -19,7 +19,7 @@ def _strict(ctx, ls, inc):
     return ctx.AND(*[(ls[i] < ls[i + 1]) if inc else (ls[i] > ls[i + 1]) for i in range(len(ls) - 1)])
 
 
-def align_n(ctx, specs, join='outer', sort=False, axis=None, lk=None, dataset_at=None, prime=False):
+def align_n(ctx, specs, join='outer', sort=False, axis=None, lk=None, dataset_at=None, prime=False, ds_extra=False):
     """specs: list of (dims, sizes) per input array"""
     lk = lk or {}
     arrs = []
@@ -34,7 +34,14 @@ def align_n(ctx, specs, join='outer', sort=False, axis=None, lk=None, dataset_at
     inputs = list(arrs)
     if dataset_at is not None:
         ds = ctx.da.Dataset()
+        if ds_extra:
+            # variables that lack the aligned dimensions, stored before and after the one that has them
+            ek = ctx.labels('i', 2, 'ek')
+            ec = ctx.cells('f', 2, 'ec')
+            ds['a0'] = ctx.mk(['k'], [ek], ec, register=False)
         ds['v'] = arrs[dataset_at]
+        if ds_extra:
+            ds['z9'] = ctx.mk(['k'], [ek], ec, register=False)
         inputs[dataset_at] = ds
     kw = {}
     if join != 'outer':
@@ -54,8 +61,14 @@ def align_n(ctx, specs, join='outer', sort=False, axis=None, lk=None, dataset_at
     if dataset_at is not None:
         if not isinstance(outs[dataset_at], ctx.da.Dataset):
             return ctx.done(False, ctx.observe(outs))
+        extra_ok = True
+        if ds_extra:
+            dso = outs[dataset_at]
+            extra_ok = list(dso.keys()) == ['a0', 'v', 'z9'] and ctx.AND(same(ctx, dso['a0'], Ref(['k'], [ek], ec)), same(ctx, dso['z9'], Ref(['k'], [ek], ec)))
         outs[dataset_at] = outs[dataset_at]['v']
     oks = []
+    if dataset_at is not None:
+        oks.append(extra_ok)
     alldims = []
     for ref in refs:
         for d in ref.dims:
@@ -171,6 +184,9 @@ def templates():
         add('axis-x-%s' % sort, 'align_n', cost=2, specs=[[['x', 'y'], [2, 2]], [['x', 'y'], [2, 2]]], axis='x', sort=sort)
         add('axis-y-%s' % sort, 'align_n', cost=2, specs=[[['x', 'y'], [2, 2]], [['y', 'x'], [2, 2]]], axis='y', sort=sort, join='inner')
     # a Dataset among the inputs
+    add('dataset-extra-0', 'align_n', cost=3, specs=[[['x'], [2]], [['x'], [2]]], dataset_at=0, ds_extra=True)
+    add('dataset-extra-1-2d', 'align_n', cost=4, specs=[[['x'], [2]], [['y', 'x'], [1, 2]]], dataset_at=1, ds_extra=True)
+    add('dataset-extra-inner', 'align_n', cost=3, specs=[[['x'], [2]], [['x'], [2]]], dataset_at=1, ds_extra=True, join='inner')
     add('dataset-0', 'align_n', cost=2, specs=[[['x'], [2]], [['x'], [2]]], dataset_at=0)
     add('dataset-1-inner', 'align_n', cost=2, specs=[[['x', 'y'], [2, 2]], [['x'], [2]]], dataset_at=1, join='inner')
     return ts
